@@ -301,7 +301,26 @@ def run_case(ctx, case):
                     if aff(A.double()) != cv.add(P, P):
                         return o.viol("jacobi|double", "%s: double of %r(Z=%d) wrong" % (name, P, z1))
                     if aff(-A) != cv.neg(P):
-                        return o.viol("jacobi|neg", "%s: negation of %r(Z=%d) wrong" % (name, P, z1))
+                        return o.viol("jacobi|neg", "%s: negation of %r(Z=%s) wrong" % (name, P, z1))
+                    # the negated point is a point like any other: it can be encoded, and negating twice gives the point back
+                    size_ = (cv.p.bit_length() + 7) // 8
+                    nx, ny = cv.neg(P)
+                    try:
+                        enc = (-A).to_bytes("raw")
+                    except Exception as e:
+                        return o.viol("jacobi|neg|unusable", "%s: the negation of %r(Z=%s) cannot be encoded: %r" % (name, P, z1, e))
+                    if enc != nx.to_bytes(size_, "big") + ny.to_bytes(size_, "big"):
+                        return o.viol("jacobi|neg|encoding", "%s: the negation of %r(Z=%s) encodes to other bytes than its coordinates" % (name, P, z1))
+                    if aff(-(-A)) != P:
+                        return o.viol("jacobi|neg|twice", "%s: negating %r(Z=%s) twice does not give it back" % (name, P, z1))
+                    # ... and the negation of the neutral element (also as the RESULT of an operation) is the neutral element
+                    for what, mk_inf in (("INFINITY", lambda: E.INFINITY), ("P + (-P)", lambda: A + (-A)), ("n * P", lambda: A * n)):
+                        try:
+                            r = -mk_inf()
+                        except Exception as e:
+                            return o.viol("neg|infinity-raises", "%s: negating the point at infinity (%s) raised %r" % (name, what, e))
+                        if aff(r) is not None:
+                            return o.viol("neg|infinity", "%s: the negation of the point at infinity (%s) is not the point at infinity" % (name, what))
                     if aff(E.INFINITY + A) != P or aff(A + E.INFINITY) != P:
                         return o.viol("jacobi|add|infinity", "%s: adding INFINITY to %r wrong" % (name, P))
                     if (int(A.x()) % cv.p, int(A.y()) % cv.p) != P:
@@ -515,7 +534,10 @@ def std_scalars(ctx, cur):
     return out
 
 
-INVALID = ["x+p-small-x", "off-curve-y+1", "off-curve-x+1", "x>=p", "y>=p", "zero-zero", "other-curve", "infinity-encoding", "seed-garbage", "valid-control"]
+# curves whose group order is NOT prime (cofactor > 1) have points of small order; (x, 0) has order 2 and the library reads y = 0 as
+# "infinity".  x-coordinates of such points (checked against the reference curve at run time)
+LOW_ORDER_X = {"SECP112r2": 0xB1FD8DE127D4656B573EB513984D}
+INVALID = ["low-order-y0", "x+p-small-x", "off-curve-y+1", "off-curve-x+1", "x>=p", "y>=p", "zero-zero", "other-curve", "infinity-encoding", "seed-garbage", "valid-control"]
 
 
 def invalid_case(ctx, o, cur, kind):
@@ -562,6 +584,12 @@ def invalid_case(ctx, o, cur, kind):
         x, y = oc.mul(9, oc.g)
         if cv.on_curve((x, y)):
             return Outcome("accidentally-on-curve", False)
+    elif kind == "low-order-y0":
+        if cur.name not in LOW_ORDER_X:
+            return Outcome("prime-order-curve", False)
+        x, y = LOW_ORDER_X[cur.name], 0
+        if not cv.on_curve((x, y)):
+            return Outcome("constant-wrong", False).viol("oracle|low-order-constant", "%s: the recorded point (x, 0) is not on the curve" % cur.name)
     elif kind == "seed-garbage":
         x = ctx.symint("c17-gx-" + cur.name, p)
         y = ctx.symint("c17-gy-" + cur.name, p)
@@ -605,6 +633,11 @@ def invalid_case(ctx, o, cur, kind):
             o.viol("invalid|control-rejected|%s" % name, "%s: a valid point is rejected by %s: %r" % (cur.name, name, err))
         if not valid and accepted:
             o.cls = "accepted-invalid"
+            if kind == "low-order-y0":
+                # one recorded finding whatever the loader
+                o.viol("invalid|accepted|low-order-y0", "%s: %s accepts the point (x, 0) of order 2, which the library itself treats as the "
+                       "point at infinity, as a public key" % (cur.name, name))
+                break
             o.viol("invalid|accepted|%s|%s" % (kind, name), "%s: %s accepts an invalid public point (%s)" % (cur.name, name, kind))
     if not valid and x is not None and x < (1 << 8 * size) and y < (1 << 8 * size):
         # OpenSSL agrees that the point is invalid (oracle sanity)
